@@ -981,8 +981,14 @@ class Tensor:
             # that - being constant - has none)
             return self._grad
 
-        if self._view_grad is not None and self._view_grad.base is self._base._grad:
+        if (
+            self._view_grad is not None
+            and self._base._grad is not None
+            and self._view_grad.base is self._base._grad
+        ):
             # view grad has been computed already
+            # (a cached gradient that owns its memory has `base` None: it must
+            # not be taken for a view of a base-gradient that is None as well)
             return self._view_grad
 
         if self._base._grad is None or self._creator is None:
